@@ -33,9 +33,12 @@ DecRef(st) ==
 
 AliveVal(st) == CHOOSE v \in st.vals : \A w \in st.vals : v <= w      \* the harness allocates through the oldest live value
 
+\* (object.rs: write() on a zero-sized slot stores nothing -- the value passed in goes out of scope there and then, which is
+\* its one drop; Kind::Dangling handles drop nothing later)
 Alloc(st, kind, owned, zero) ==
   LET h == [kind |-> kind, owned |-> owned, det |-> FALSE, zero |-> zero, src |-> IF owned THEN -1 ELSE AliveVal(st)]
-      st1 == [st EXCEPT !.hs = (st.nextH :> h) @@ st.hs, !.nextH = st.nextH + 1] IN
+      st1 == [st EXCEPT !.hs = (st.nextH :> h) @@ st.hs, !.nextH = st.nextH + 1,
+                        !.drops = IF kind = "dc" /\ zero THEN st.drops + 1 ELSE st.drops] IN
   IF Embeds(h) THEN [st1 EXCEPT !.refs = st.refs + 1] ELSE st1
 
 Without(f, k) == [i \in DOMAIN f \ {k} |-> f[i]]
@@ -44,7 +47,7 @@ Without(f, k) == [i \in DOMAIN f \ {k} |-> f[i]]
 DropHandle(st, id) ==
   LET h == st.hs[id]
       st1 == [st EXCEPT !.hs = Without(st.hs, id),
-                        !.drops = IF h.kind = "dc" /\ ~h.det THEN st.drops + 1 ELSE st.drops] IN
+                        !.drops = IF h.kind = "dc" /\ ~h.det /\ ~h.zero THEN st.drops + 1 ELSE st.drops] IN
   IF Embeds(h) THEN DecRef(st1) ELSE st1
 Detach(st, id) == [st EXCEPT !.hs[id].det = TRUE]
 
@@ -61,7 +64,7 @@ Enabled(st, op) ==
 Step(st, op) ==
   IF op.k = "ab" THEN Alloc(st, "bytes", op.o, op.z)
   ELSE IF op.k = "at" THEN Alloc(st, "typed", op.o, op.z)
-  ELSE IF op.k = "adc" THEN Alloc(st, "dc", op.o, FALSE)
+  ELSE IF op.k = "adc" THEN Alloc(st, "dc", op.o, op.z)
   ELSE IF op.k = "drop" THEN DropHandle(st, op.h)
   ELSE IF op.k = "detach" THEN Detach(st, op.h)
   ELSE IF op.k = "clone" THEN Clone(st)
@@ -74,6 +77,12 @@ RefsEqualsArenaValues(st) == st.refs = Holders(st)
 ReleasedExactlyAtZero(st) == st.released = (IF Holders(st) = 0 THEN 1 ELSE 0)
 FileRemovedExactlyThen(st) == st.file = "none" \/ (st.file = "removed") = (st.released = 1 /\ st.rod)
 \* per step: the drop counter moves by one exactly for a non-detached needs-drop handle
+\* ... and over the life of a needs-drop handle that is dropped without having been detached the value is dropped exactly
+\* once (vd = drops attributed to the handle so far: at its write, for a zero-sized value)
 DropDelta(st, op, st2) ==
-  st2.drops - st.drops = (IF op.k = "drop" /\ st.hs[op.h].kind = "dc" /\ ~st.hs[op.h].det THEN 1 ELSE 0)
+  st2.drops - st.drops = (IF op.k = "drop" /\ st.hs[op.h].kind = "dc" /\ ~st.hs[op.h].det /\ ~st.hs[op.h].zero THEN 1
+                          ELSE IF op.k = "adc" /\ op.z THEN 1 ELSE 0)
+DroppedOnceOverLife(st, op, st2) ==
+  (op.k = "drop" /\ st.hs[op.h].kind = "dc" /\ ~st.hs[op.h].det)
+     => (IF st.hs[op.h].zero THEN 1 ELSE 0) + (st2.drops - st.drops) = 1
 =============================================================================
